@@ -82,13 +82,17 @@ def readAllRd (r : Rd) (s : Src) (cx : Ctx) (onInter : Option Callback) :
   let (chunks, e, r', s', cx') := Rd.pull true 512 onInter (pullFuel s) r s cx []
   (chunks.flatten, if e = .eof then none else some e, r', s', cx')
 
+/-- the OnIntermediate handler wsutil.ReadMessage installs: read the control frame's payload to its
+    end and append it as a message of its own -/
+def collectCb : Callback := fun h r s cx =>
+  let (chunks, e, r', s', cx') := Rd.pull false 512 none (pullFuel s) r s cx []
+  if e = .eof then ⟨none, r', s', { cx' with msgs := cx'.msgs ++ [(h.op, chunks.flatten)] }⟩
+  else ⟨some e, r', s', cx'⟩
+
 /-- wsutil.ReadMessage(r, s, m): returns the appended messages (intermediate control frames first,
     then the data message) and the error. -/
 def readMessage (state : Nat) (s : Src) : List (Nat × Bytes) × Option RErr × Src :=
-  let collect : Callback := fun h r s cx =>
-    let (chunks, e, r', s', cx') := Rd.pull false 512 none (pullFuel s) r s cx []
-    if e = .eof then ⟨none, r', s', { cx' with msgs := cx'.msgs ++ [(h.op, chunks.flatten)] }⟩
-    else ⟨some e, r', s', cx'⟩
+  let collect : Callback := collectCb
   let rd : Rd := { state, checkUTF8 := true }
   match rd.nextFrame s {} (some collect) with
   | (_, some e, _, s1, cx) => (cx.msgs, some e, s1)
